@@ -524,6 +524,10 @@ def advanceView (k : Keys) (c : RCfg) (si : SyncInfo) : M Unit := do
   | .reject => return
   | .ok (qc, view, timeout) =>
     let mut si := si
+    -- UpdateHighTC: the highest verified timeout certificate travels in later timeout messages
+    match si.tc with
+    | some tc => modify fun s => { s with highTC := if tc.view > s.highTC.view then tc else s.highTC }
+    | none => pure ()
     match qc with
     | some q =>
       -- UpdateHighQC
